@@ -180,6 +180,12 @@ def run_one(seed, preset=None, tier="quick", want_case=False):
         engine = cook_engine(schema, name, cfg, sdl=case.sdl)
         out = execute_once(engine, case.text, None, raw, plan, tape.sub("sched"), sched[0], sched[1], sched[2],
                            root_value=plan.root_value)
+        out_again = None
+        if seed % 3 == 0 and out.exc is None:
+            # the same request once more on the same engine, after the application consumed (mutated) the argument
+            # dictionaries of the first one: literals, variable values and DEFAULTS are coerced per request
+            out_again = execute_once(engine, case.text, None, raw, plan, tape.sub("sched_again"), sched[0], sched[1], sched[2],
+                                     root_value=plan.root_value)
         out_huge = None
         if base == "Float":
             # a literal no IEEE double can hold: never delivered (refused, or that field fails)
@@ -209,6 +215,14 @@ def run_one(seed, preset=None, tier="quick", want_case=False):
     else:
         viol.extend(check_envelope(out.resp, case.text))
         viol.extend(check_against_plan(case, plan, out.resp, out.rt, out.events))
+        if out_again is not None and not viol:
+            if out_again.exc is not None:
+                viol.append(exc_violation(out_again))
+            else:
+                for v_ in check_against_plan(case, plan, out_again.resp, out_again.rt, out_again.events):
+                    v_["sig"]["call"] = "same request again after its arguments were consumed"
+                    v_["detail"] = "[second execution of the same request] " + v_["detail"]
+                    viol.append(v_)
         got = {c[0][0]: c[3] for c in out.rt.calls}
         have = [s for s in spellings if s in got]
         compared = len(have)
@@ -227,7 +241,8 @@ def run_one(seed, preset=None, tier="quick", want_case=False):
     r["probes"] = {"nested_variable_spelling": int(bool(nested_vars)), "runtime_null_for_non_null_argument": int(S[0] != "null"),
                    "value_is_null": int(S[0] == "null"), "input_object_value": int(S[0] == "obj"), "list_value": int(S[0] == "list"),
                    "single_value_for_list": int(nullable(ty)[0] == "L" and S[0] not in ("list", "null")),
-                   "float_literal_beyond_ieee": int(out_huge is not None)}
+                   "float_literal_beyond_ieee": int(out_huge is not None),
+                   "same_request_again_after_arguments_consumed": int(out_again is not None)}
     r["faults"] = {"runtime_null_for_non_null_argument": int(S[0] != "null")}
     if seed % 25 == 0:
         bv = builtin_temporal_scalars(seed)
